@@ -50,7 +50,11 @@ const LETTERS: &[u8] = b"ABCDEFGHIJKLMNOPQRSTUVWXYZ0123456789";
 
 pub fn callsign(rng: &mut Rng) -> String {
     let n = rng.range(3, 8) as usize;
-    (0..n).map(|_| *rng.pick(LETTERS) as char).collect()
+    let mut s: Vec<char> = (0..n).map(|_| *rng.pick(LETTERS) as char).collect();
+    // now and then a blank (or a character outside the 6-bit alphabet, which is transmitted as a blank)
+    // in front of or inside the callsign: "KLM 1023", " N123AB"
+    if rng.chance(0.12) { let at = rng.below(s.len() as u64) as usize; s[at] = *rng.pick(&[' ', ' ', '#']); }
+    s.into_iter().collect()
 }
 
 pub fn aircraft(rng: &mut Rng, icao: u32) -> Ac {
@@ -247,6 +251,9 @@ pub fn line_of(rng: &mut Rng, frame: &[u8], deco: bool) -> Vec<u8> {
     }
     if rng.chance(0.3) {
         hex = hex.to_lowercase();
+    } else if rng.chance(0.1) {
+        // mixed case, digit by digit
+        hex = hex.chars().map(|c| if rng.chance(0.5) { c.to_ascii_lowercase() } else { c }).collect();
     }
     let mut s = String::new();
     match rng.below(6) {
@@ -265,7 +272,7 @@ pub fn line_of(rng: &mut Rng, frame: &[u8], deco: bool) -> Vec<u8> {
     if rng.chance(0.15) {
         for _ in 0..rng.range(1, 4) {
             let at = rng.below(v.len() as u64 - 1) as usize;
-            v.insert(at, *rng.pick(&[b' ', b'\t', b',', b':', b'-', b'\r', 0u8, 0x1A, b'x', b'.']));
+            v.insert(at, *rng.pick(&[b' ', b'\t', b',', b':', b'-', b'\r', 0u8, 0x1A, b'x', b'.', b'+', b'g', b'z', b'O', b'_', b'#']));
         }
     }
     v
@@ -275,7 +282,7 @@ pub fn line_of(rng: &mut Rng, frame: &[u8], deco: bool) -> Vec<u8> {
 
 pub const JUNK_KINDS: &[&str] = &[
     "empty", "blank", "text", "hex13", "hex15", "hex27", "hex29", "hex41", "hex-odd", "high-bytes", "nul",
-    "lone-cr", "overlong", "utf8-multibyte", "truncated-frame", "semicolon-only", "split-utf8", "pow2-len", "pow2-len", "ctrl-bytes", "ctrl-z", "bom", "overlong-frame-tail", "utf16-bom", "greeting", "at-cut", "lookalike-digit-frame",
+    "lone-cr", "overlong", "utf8-multibyte", "truncated-frame", "semicolon-only", "split-utf8", "pow2-len", "pow2-len", "ctrl-bytes", "ctrl-z", "bom", "overlong-frame-tail", "utf16-bom", "greeting", "at-cut", "lookalike-digit-frame", "letter-for-digit", "at-short", "frame-badutf8-digits",
 ];
 
 /// A line (with newline) that is unambiguously *not* a frame: its hex-digit
@@ -317,6 +324,26 @@ pub fn junk(rng: &mut Rng, kind: &str) -> Vec<u8> {
             s.push_str(&hex[at + 1..]);
             s.into_bytes()
         }
+        // a valid frame in which one digit was replaced by a letter beyond F, a sign or a look-alike (O for 0,
+        // l for 1): one digit short, hence junk - unless digits are parsed with a wider radix or a sign-tolerant parser
+        "letter-for-digit" => {
+            let hex = *rng.pick(&["8D406B902015A678D4D220AA4BDA", "8D40621D58C382D690C8AC2863A7", "5D3982A87C156D", "28001A1B1F0706", "A0001838300000000000007ADA59"]);
+            let at = rng.below(hex.len() as u64) as usize;
+            let mut v = hex.as_bytes().to_vec();
+            v[at] = *rng.pick(b"gGzZOolI+-_ ");
+            v
+        }
+        // a perfectly valid frame, one byte that is not UTF-8, a few more digits: as a whole 15-25 or 29-39 digits
+        "frame-badutf8-digits" => {
+            let hex = *rng.pick(&["8D406B902015A678D4D220AA4BDA", "8D40621D58C382D690C8AC2863A7", "5D3982A87C156D", "28001A1B1F0706", "A0001838300000000000007ADA59"]);
+            let mut v = hex.as_bytes().to_vec();
+            v.push(*rng.pick(&[0xFFu8, 0xC3, 0x80, 0xFE, 0xE2]));
+            let n = rng.range(1, 11) as usize;
+            v.extend(hexn(rng, n));
+            v
+        }
+        // a time-stamp marker with (almost) nothing behind it
+        "at-short" => { let n = rng.range(0, 11) as usize; let mut v = vec![b'@']; v.extend(hexn(rng, n)); if rng.chance(0.5) { v.push(b';'); } v }
         // a time-stamped '@' line cut short: even digit counts that are not frame lengths
         "at-cut" => { let n = *rng.pick(&[16usize, 18, 20, 22, 24, 30, 32, 34, 36, 38, 42, 44]); let mut v = vec![b'@']; v.extend(hexn(rng, n)); v.push(b';'); v }
         // what other services say first when one connects to the wrong port
